@@ -71,7 +71,7 @@ def build_and_audit_extra(ctx, mods):
 
 
 def run(ctx):
-    ok = build_and_audit(ctx, "XgiModel.Props.C05", ["XgiModel.Drive.HG"])
+    ok = build_and_audit(ctx, "XgiModel.Props.C05", ["XgiModel.Drive.HG", "XgiModel.Props.C05D"], audit_extra=("XgiModel.Props.C05D",))
     ctx.rule = ("histories of 1-30 public mutator calls over the full alphabet and argument shapes; full snapshot "
                 "(order, members, memberships, three attribute levels, counter, frozen flag, outcome kind) compared "
                 "with the model after every op; non-trivial = distinct full state with an edge of >=2 members after >=2 op kinds")
